@@ -711,6 +711,21 @@ fn gen_actor_watcher(w: &mut CaseWriter, rt: &tokio::runtime::Runtime, thorough:
                 ops.extend((0..8).rev().map(AOp::Get));
                 ops.push(AOp::Watch(lay.clone()));
                 ops.extend([4, 5, 7, 6].map(AOp::Get));
+                // a member comes back under another address with the same node id (ids are the low
+                // byte of the address): the selector must hand out the new address only
+                let mut moved = lay.clone();
+                'mv: for (_, nodes) in moved.iter_mut() {
+                    for x in nodes.iter_mut() {
+                        if *x != *a {
+                            *x += 0x100;
+                            break 'mv;
+                        }
+                    }
+                }
+                if moved != lay {
+                    ops.push(AOp::Watch(moved));
+                    ops.extend([6, 4, 1].map(AOp::Get));
+                }
                 do_actor(w, rt, *a, *d, &ops);
                 w.stats.hit("actor_watcher_sequences");
             }
